@@ -441,6 +441,8 @@ class Models:
                     except Exception:
                         return Opaque("str." + name)
                 return Builtin("str." + name, smeth)
+        if isinstance(obj, Opaque) and obj.what.startswith("dtype:") and name == "kind":
+            return {"real": "f", "int": "i", "cx": "c", "bool": "b"}.get(obj.what.split(":")[1], "f")
         if V.sort_of(obj) is not None or obj is None:
             # python scalars / None have no such attribute (e.g. `val.shape` in the scalar branch of a try)
             raise RaiseSignal("AttributeError", line=line)
